@@ -277,6 +277,24 @@ def run_receiver(case) -> CaseResult:
                 # window adjusts written on resume count as granted: let the
                 # peer see them before it decides what "remaining" is
                 link.pump()
+            elif op[0] == 'resume-partly':
+                # the application resumes but pauses again from inside its
+                # k-th data_received(): part of the backlog stays buffered
+                sess = chan._session     # pylint: disable=protected-access
+                sess.repause_after = op[1]
+                link.h.call(chan.resume_reading)
+                link.pump()
+
+                if sess.repause_after:
+                    # backlog shorter than k packets: still reading
+                    sess.repause_after = 0
+                    paused = False
+                else:
+                    paused = True
+                    labels.add('partial-resume')
+
+                    if len(delivered()) < len(expected):
+                        labels.add('partial-resume:backlog-left')
             elif op[0] == 'send':
                 remaining = rch.send_window       # granted and unused
                 kind = op[1]
@@ -412,12 +430,24 @@ def receiver_strategy(tier: str):
                      pick(['inside', 'inside', 'half', 'exact', 'plus1',
                            'far']),
                      pick([1, 2, 10, 100, 5000])).map(list)
-    op = st.one_of(send, send, send, st.just(['pause']), st.just(['resume']))
+    op = st.one_of(send, send, send, st.just(['pause']), st.just(['resume']),
+                   st.tuples(st.just('resume-partly'),
+                             pick([1, 1, 2, 3])).map(list))
+    # a backlog of several packets built up while paused, handed over only
+    # in part, then the peer tries the window again
+    backlog = st.tuples(
+        st.lists(st.tuples(st.just('send'), pick(['half', 'half', 'inside']),
+                           pick([1, 2, 10, 100])).map(list),
+                 min_size=2, max_size=4),
+        pick([1, 1, 2]), send, st.lists(op, max_size=4)).map(
+            lambda t: [['pause']] + t[0] + [['resume-partly', t[1]], t[2]] +
+            t[3])
     return st.fixed_dictionaries({
         'role': pick(['server', 'client']),
         'window': pick([1, 2, 7, 100, 1000, 4096, 65536]),
         'maxpkt': pick([1, 3, 64, 1024, 32768]),
-        'ops': st.lists(op, min_size=1, max_size=12)})
+        'ops': st.one_of(st.lists(op, min_size=1, max_size=12),
+                         st.lists(op, min_size=1, max_size=12), backlog)})
 
 
 # -------------------------------------------------------------- streams ---
@@ -661,7 +691,8 @@ FAMILIES = [
            required={'all': ['role:server', 'role:client', 'violating-peer',
                              'violation-while-paused',
                              'violation-while-reading', 'data-while-paused',
-                             'pause']},
+                             'pause', 'partial-resume',
+                             'partial-resume:backlog-left']},
            case_timeout=120, timeout_is_violation=True),
     Family('streams', run_streams, strategy=streams_strategy,
            budget={'quick': 1200, 'thorough': 16000},
